@@ -4,6 +4,14 @@ from .exception import ProphyError
 from .six import xrange
 
 
+def _as_list(values):
+    """ Materializes a sequence argument; iterators have no len() and can be consumed only once. """
+    try:
+        return list(values)
+    except TypeError:
+        raise ProphyError("object of type '%s' has no len()" % type(values).__name__)
+
+
 def decode_scalar_array(tp, data, pos, endianness, count):
     if count is None:
         items, remainder = divmod(len(data) - pos, tp._SIZE)
@@ -51,6 +59,7 @@ class fixed_scalar_array(base_array):
             self._values[idx] = value
 
     def __setslice__(self, start, stop, values):
+        values = _as_list(values)
         if len(self._values[start:stop]) != len(values):
             raise ProphyError("setting slice with different length collection")
         self._values[start:stop] = map(self._TYPE._check, values)
@@ -87,6 +96,7 @@ class bound_scalar_array(base_array):
     def extend(self, values):
         if not values:
             return
+        values = _as_list(values)
         if self._max_len and len(self) + len(values) > self._max_len:
             raise ProphyError("exceeded array limit")
         self._values.extend(list(map(self._TYPE._check, values)))
@@ -102,6 +112,7 @@ class bound_scalar_array(base_array):
             self._values[idx] = value
 
     def __setslice__(self, start, stop, values):
+        values = _as_list(values)
         if self._max_len and len(self) + len(values) - len(self._values[start:stop]) > self._max_len:
             raise ProphyError("exceeded array limit")
         self._values[start:stop] = map(self._TYPE._check, values)
@@ -166,6 +177,7 @@ class bound_composite_array(base_array):
         return new_element
 
     def extend(self, elem_seq):
+        elem_seq = list(elem_seq)
         if self._max_len and len(self) + len(elem_seq) > self._max_len:
             raise ProphyError("exceeded array limit")
 
